@@ -302,7 +302,8 @@ struct StreamSim : Sim {
                         bias = K_GCM;
                 p.cfg["clients"] = nc;
                 bool huge_run = (focus == "C09" && (thorough ? run_index % 20000 < 3 : run_index < 3)) ||
-                                (focus == "C05" && (thorough ? run_index % 20000 < 10 : run_index < 2));
+                                (focus == "C05" && (thorough ? run_index % 20000 < 10 : run_index < 10)) ||
+                                (focus == "C10" && (thorough ? run_index % 20000 < 10 : run_index < 5));
                 for (int i = 0; i < nc; i++) {
                         int kind = (bias >= 0 && (i == 0 || g.chance(3, 4))) ? bias : (int) g.below(K_N);
                         if (focus == "C05" && bias >= 0 && i > 0 && g.chance(1, 2))
@@ -369,9 +370,14 @@ struct StreamSim : Sim {
                                 p.cfg["c0_fam"] = (int64_t) (run_index % 3);
                                 p.cfg["c0_w"] = 1 + (int64_t) g.below(48);
                                 p.cfg["c0_twin"] = 0;
+                        } else if (focus == "C10") {
+                                p.cfg["c0_kind"] = K_MUR;
+                                p.cfg["c0_fam"] = (int64_t) (run_index % 5);
+                                p.cfg["c0_hugemode"] = (int64_t) ((run_index / 5 + g.below(3)) % 3);
                         } else {
-                                p.cfg["c0_kind"] = (run_index & 1) ? K_MH256 : K_MH1; // both kinds in every batch
-                                p.cfg["c0_fam"] = thorough ? (int64_t) ((run_index / 2) % 5) : 1 + (int64_t) g.below(4);
+                                p.cfg["c0_kind"] = (run_index & 1) ? K_MH256 : K_MH1; // both kinds and all five families in every batch
+                                p.cfg["c0_fam"] = (int64_t) ((run_index / 2) % 5);
+                                p.cfg["c0_hugemode"] = (int64_t) ((run_index / 10 + g.below(3)) % 3);
                         }
                         p.cfg["c0_huge"] = 1;
                         p.cfg["c0_phase"] = (int64_t) g.below(4096);
@@ -1355,42 +1361,89 @@ struct StreamSim : Sim {
 
         void mh_huge(St &s, SClient &c, int ci, const Op &o)
         {
-                // one update of >= 2^31 bytes from the aliased window followed by finalize; reference computed
-                // incrementally over the periodic stream
+                // update calls of >= 2^31 bytes from the aliased window followed by finalize; the reference multi-hash is computed
+                // blockwise over the periodic stream. Modes: 0 = one update of 2^31 + x bytes; 1 = a pending partial block of p bytes,
+                // then one update of 2^32 - p + y bytes (len + pending wraps in 32 bits); 2 = one update of exactly k * 2^16 blocks
+                // (64 MiB multiples: block counters whose low 16 bits are zero), optionally after a pending partial block.
                 Env &e = *s.env;
                 if (c.finalized)
                         return;
                 build_hwin();
                 int k = c.kind;
-                uint64_t n = (1ull << 31) + (o.c % 2048);
+                int mode = (int) (s.p->get(strfmt("c%d_hugemode", ci).c_str()) % 3);
                 size_t phase = (size_t) (o.d % 1024);
-                s.r->cov.hit("probe_mh_update_len_ge_2^31");
-                uint64_t rc;
-                if (c.api) {
-                        SlotGuard sg;
-                        sg.set(S.mh_disp_update[k], S.mh_update[k][c.fam]);
-                        rc = e.call(strfmt("isal_%s_update", kind_name[k]).c_str(), S.mh_isal_update[k], { U(c.ctx), U(g_hwin + phase), n });
+                uint64_t p0 = 0, n;
+                if (mode == 1) {
+                        p0 = 1 + (uint64_t) (o.c % 1023);
+                        n = (1ull << 32) - p0 + (uint64_t) ((o.c >> 10) % p0);
+                } else if (mode == 2) {
+                        p0 = (o.c & 1) ? 1 + (uint64_t) ((o.c >> 1) % 1023) : 0;
+                        n = (p0 ? 1024 - p0 : 0) + (uint64_t) (1 + (o.c >> 11) % 3) * (1ull << 26) + (uint64_t) ((o.c >> 13) % 2) * (uint64_t) ((o.c >> 14) % 1024);
                 } else
-                        rc = e.call(strfmt("_%s_update_%s", kind_name[k], mh_fams[c.fam]).c_str(), S.mh_update[k][c.fam], { U(c.ctx), U(g_hwin + phase), n });
-                (void) rc;
-                // materialise the stream for the reference (2 GiB would be too much): reference multi-hash computed blockwise
+                        n = (1ull << 31) + (uint64_t) (o.c % 2048);
+                s.r->cov.hit(strfmt("probe_mh_huge_update_mode_%d", mode));
+                if (n >= (1ull << 31))
+                        s.r->cov.hit("probe_mh_update_len_ge_2^31");
+                const char *prop = c.kind == K_MUR ? "C10" : "C05";
+                std::string site = std::string(kind_name[k]) + "/" + mh_fams[c.fam];
+                auto upd = [&](uint64_t off, uint64_t len) {
+                        uint64_t rc;
+                        if (c.api) {
+                                SlotGuard sg;
+                                sg.set(S.mh_disp_update[k], S.mh_update[k][c.fam]);
+                                rc = e.call(strfmt("isal_%s_update", kind_name[k]).c_str(), S.mh_isal_update[k], { U(c.ctx), U(g_hwin + phase + off), len });
+                        } else
+                                rc = e.call(strfmt("_%s_update_%s", kind_name[k], mh_fams[c.fam]).c_str(), S.mh_update[k][c.fam], { U(c.ctx), U(g_hwin + phase + off), len });
+                        if ((uint32_t) rc)
+                                e.violation(prop, "update-failed", std::string(prop) + "/update-failed/" + site, strfmt("%s: update of %llu bytes returned %d", site.c_str(), (unsigned long long) len, (int) rc));
+                        e.check_buf(c.ctx, "mh update (huge)");
+                };
+                e.ev(mix64(OP_DELIVER, ((uint64_t) ci << 40) ^ n ^ (p0 << 48)));
+                if (p0)
+                        upd(0, p0);
+                upd(p0, n);
+                uint64_t total = p0 + n;
                 c.stream.clear();
                 // finalize and compare against a streaming multi-hash reference
                 bool sha256 = c.kind == K_MH256;
                 size_t dl = sha256 ? 32 : 20;
                 uint8_t *dig = e.mem.alloc(dl, 4, END_FLUSH, &e.hidden, "mh digest out", R_OUTPUT);
+                uint8_t *mur = c.kind == K_MUR ? e.mem.alloc(16, 4, START_FLUSH, &e.hidden, "murmur digest out", R_OUTPUT) : nullptr;
                 if (c.api) {
                         SlotGuard sg;
                         sg.set(S.mh_disp_finalize[k], S.mh_finalize[k][c.fam]);
-                        e.call(strfmt("isal_%s_finalize", kind_name[k]).c_str(), S.mh_isal_finalize[k], { U(c.ctx), U(dig) });
-                } else
+                        if (mur)
+                                e.call("isal_mh_sha1_murmur3_x64_128_finalize", S.mh_isal_finalize[k], { U(c.ctx), U(dig), U(mur) });
+                        else
+                                e.call(strfmt("isal_%s_finalize", kind_name[k]).c_str(), S.mh_isal_finalize[k], { U(c.ctx), U(dig) });
+                } else if (mur)
+                        e.call(strfmt("_mh_sha1_murmur3_x64_128_finalize_%s", mh_fams[c.fam]).c_str(), S.mh_finalize[k][c.fam], { U(c.ctx), U(dig), U(mur) });
+                else
                         e.call(strfmt("_%s_finalize_%s", kind_name[k], mh_fams[c.fam]).c_str(), S.mh_finalize[k][c.fam], { U(c.ctx), U(dig) });
-                std::vector<uint8_t> want = ref_mh_periodic(sha256, phase, n);
+                // C05/C10 speak about streams shorter than 2^32 bytes: beyond that only memory safety is judged (by the monitors)
+                std::vector<uint8_t> want = total < (1ull << 32) ? ref_mh_periodic(sha256, phase, total) : std::vector<uint8_t>(dig, dig + dl);
+                if (total >= (1ull << 32))
+                        s.r->cov.hit("probe_mh_total_ge_2^32_memory_safety_only");
                 e.obs_bytes(0x420 + ci, dig, dl);
                 if (memcmp(dig, want.data(), dl) != 0)
-                        e.violation("C05", "mh-digest-huge", std::string("C05/mh-digest-huge/") + kind_name[k] + "/" + mh_fams[c.fam],
-                                    strfmt("%s/%s: digest after a single update of %llu bytes differs from the definition", kind_name[k], mh_fams[c.fam],
+                        e.violation(prop, "mh-digest-huge", std::string(prop) + "/mh-digest-huge/" + site,
+                                    strfmt("%s: digest after updates of %llu + %llu bytes differs from the definition", site.c_str(), (unsigned long long) p0,
                                            (unsigned long long) n));
+                if (mur && total < (1ull << 32)) { // MurmurHash3 takes a 32-bit length: totals beyond are outside its definition
+                        uint8_t wm[16];
+                        ref_murmur3_x64_128(g_hwin + phase, (size_t) total, c.mur_seed, wm);
+                        e.obs_bytes(0x430 + ci, mur, 16);
+                        if (memcmp(mur, wm, 16) != 0)
+                                e.violation("C10", "murmur-digest-huge", "C10/murmur-digest-huge/" + site,
+                                            strfmt("%s: murmur3 %s, reference %s for %llu bytes seed %llx", site.c_str(), hex(mur, 16).c_str(), hex(wm, 16).c_str(),
+                                                   (unsigned long long) total, (unsigned long long) c.mur_seed));
+                        s.r->cov.hit("probe_murmur_total_in_[2^31,2^32)", total >= (1ull << 31) ? 1 : 0);
+                }
+                if (mur)
+                        e.check_buf(mur, "mh finalize");
+                e.check_buf(dig, "mh finalize");
+                e.check_buf(c.ctx, "mh finalize");
+                s.r->cov.hit("stream_finalized_and_verified");
                 c.finalized = true;
         }
 
